@@ -54,6 +54,20 @@ CHECKS = {
          'termination); program assignments replayed on real goroutines; linearisation traces stamped inside the critical sections '
          'validated by TLC (CacheTrace.tla) against the same RWLock predicates; stress under the Go race detector.',
          '6 (C17)', 'TLA+ model checking (TLC) + TLC validation of linearisation traces from real goroutines + race detector stress'),
+ 'C01': ('CodecCases.tla over Vocabulary.tla (generated from the shipped meta-schemas) enumerates every keyword x normal-form value class, pairs, '
+         'extensions, unknown keywords and nesting chains; TLC checks vocabulary coverage; every document replayed through decode/encode; '
+         'normal form decided and equality judged by TLC (CodecOracle.tla).',
+         '6 (C01)', 'TLA+ enumeration over a generated vocabulary (TLC) + replay through the codecs + TLC-evaluated oracle'),
+ 'C06': ('Ordering.tla comparator model-checked (strict total order); every item set replayed over all source permutations; every encoding of '
+         'the vocabulary families token-scanned; builder-API programs encoded.',
+         '6 (C06)', 'TLA+ model of the property comparator (TLC) + replay over all permutations + token-level scan of real encodings'),
+ 'C07': ('Every keyword x 13 value classes (right or wrong), payload mixtures, chains: decoded in a watchdogged child; value-or-error and '
+         'byte-for-byte fixed point judged by TLC; seeded byte-level mutants for totality.',
+         '6 (C07)', 'TLA+ enumeration of wrong-typed documents (TLC) + watchdogged replay + TLC-evaluated idempotence oracle'),
+ 'C14': ('C01 enumeration plus payloads with nulls / empty containers for the gob carriers; gob round trip compared with the JSON encoding.',
+         '6 (C14)', 'TLA+ enumeration (TLC) + gob replay + TLC-evaluated oracle'),
+ 'C15': ('Every pointer into every C01 document evaluated typed and generic; scope decided by TLC from the vocabulary trail.',
+         '6 (C15)', 'TLA+ enumeration (TLC) + pointer replay + TLC-evaluated scope/equality oracle'),
 }
 
 NA = {
